@@ -27,6 +27,7 @@ var exprForms = []string{
 	`[1, 2, 3]`, `[a, "x"]|join`, `{"k": 1, j: 2}`, `h.k`, `h["k"]`, `arr[0]`, `arr.1`, `obj.Add(1, 2)`, `obj.Name`,
 	`f(a, 1)`, `f()`, `a|up`, `a|wrap("x")`, `s|up|wrap('y')`, `"x #{a} y"`, `"#{a}#{b}"`,
 	`f(a|up, [b])`, `h.k|up`, `(a)`, `a ? "y" : 'n'`,
+	`[]|join`, `{}|length`, `[[1, 2], []]|length`, `f([], {})`,
 }
 
 var tagForms = []CorpusItem{
@@ -185,6 +186,10 @@ func addStdCallbacks(env *stick.Env) {
 			return false, nil
 		})
 		return strings.Join(parts, "+")
+	}
+	env.Filters["length"] = func(ctx stick.Context, val stick.Value, args ...stick.Value) stick.Value {
+		n, _ := stick.Len(val)
+		return n
 	}
 	env.Tests["odd"] = func(ctx stick.Context, val stick.Value, args ...stick.Value) bool {
 		return int(stick.CoerceNumber(val))%2 != 0
